@@ -115,6 +115,12 @@ def check(ctx: Ctx) -> None:  # noqa: C901, PLR0912, PLR0915
     bare = [r for r in raises if r.exc is None]
     ok = ok and bool(bare) and note[0].lineno < bare[-1].lineno
     ctx.add("2-noreturn", he, note[0] if note else he.node, ok, "the note is attached to the caught exception before the bare raise" if ok else "the failing call is no longer noted on the exception before re-raising", key="add-note")
+    if note and bare:
+        nn = {cfg.node_containing(note[0])} - {None}
+        rn = cfg.node(bare[-1])
+        ok = bool(nn) and cfg.must_pass(ENTRY, rn, nn)
+        ctx.add("2-noreturn", he, note[0], ok, "the note is added on every path to the re-raise" if ok else
+                "the note is added only conditionally: some failing invocations surface without (or with another invocation's) function name and kwargs", key="note-unconditional")
     msg_src = " ".join(norm(s) for s in walk_no_nested(he.node) if isinstance(s, ast.Assign))
     ok = "func.__name__" in msg_src and "kwargs" in msg_src and "format_function_call" in msg_src
     ctx.add("2-noreturn", he, he.node, ok, "message names the function and its keyword arguments" if ok else "the message no longer contains the function name and the kwargs", key="message")
@@ -237,6 +243,7 @@ MUTANTS = [
     Mutant("handle-error-returns", U, "    e.add_note(msg)\n    raise  # noqa: PLE0704\n", "    e.add_note(msg)\n", ("C13.2-noreturn",)),
     Mutant("handle-error-wraps-runtimeerror", U, "    e.add_note(msg)\n    raise  # noqa: PLE0704\n", "    raise RuntimeError(msg) from e\n", ("C13.2-noreturn",)),
     Mutant("handle-error-no-kwargs", U, "call_str = format_function_call(func.__name__, (), kwargs)", "call_str = format_function_call(func.__name__, (), {})", ("C13.2-noreturn",)),
+    Mutant("note-only-once", U, "    e.add_note(msg)\n    raise  # noqa: PLE0704\n", "    if not getattr(e, \"__notes__\", ()):\n        e.add_note(msg)\n    raise  # noqa: PLE0704\n", ("C13.2-noreturn",), why="seeded C13/1"),
     Mutant("result-guarded", R, "    return x.result() if isinstance(x, Future) else x\n", "    try:\n        return x.result() if isinstance(x, Future) else x\n    except Exception:\n        return None\n", ("C13.3-no-swallow",)),
     Mutant("generation-loop-continues", R, "        for gen in pipeline.topological_generations.function_lists:\n            _run_and_process_generation(\n                generation=gen,\n                run_info=run_info,\n                store=store,\n                outputs=outputs,\n                fixed_indices=fixed_indices,\n                executor=ex,\n                progress=progress,\n                cache=pipeline.cache,\n            )\n",
            "        for gen in pipeline.topological_generations.function_lists:\n            try:\n                _run_and_process_generation(\n                    generation=gen,\n                    run_info=run_info,\n                    store=store,\n                    outputs=outputs,\n                    fixed_indices=fixed_indices,\n                    executor=ex,\n                    progress=progress,\n                    cache=pipeline.cache,\n                )\n            except KeyError:\n                continue\n", ("C13.3-no-swallow",)),
